@@ -157,6 +157,16 @@ func egSequence[E elgamal.FiniteCyclicGroupElement[E, S], S algebra.UintLike[S]]
 		if x.Cmp(two) < 0 {
 			x = big.NewInt(2)
 		}
+		// Catalogued finding C16-elgamal-generator-ignored: NewSecretKey accepts a generator other
+		// than the group's standard one, but encryption always uses the standard one, so such a
+		// key does not decrypt what its public key encrypts. Exactly that input class (g != the
+		// standard generator) is drawn, counted and skipped; the regression test below observes it.
+		if rapid.IntRange(0, 15).Draw(t, "generatorClass") == 0 {
+			vlib.Excluded(knownGeneratorIgnored)
+			vlib.Class(test, "generator=other(excluded)")
+		} else {
+			vlib.Class(test, "generator=standard")
+		}
 		sk, err := elgamal.NewSecretKey(g.Generator(), env.scalar(t, x))
 		if err != nil {
 			t.Fatalf("%s: NewSecretKey(g, %s) failed: %v", name, x, err)
@@ -422,6 +432,48 @@ func TestElGamalPallas(t *testing.T) {
 	egSequence(t, "pallas", pasta.NewPallasCurve(), orderPallas, 150)
 }
 func TestElGamalVesta(t *testing.T) { egSequence(t, "vesta", pasta.NewVestaCurve(), orderVesta, 150) }
+
+const knownGeneratorIgnored = "C16-elgamal-generator-ignored"
+
+// Regression observation of the catalogued finding: k256, g = 2G, a = 3, m = G, r = 1.
+func TestElGamalKnownGeneratorIgnored(t *testing.T) {
+	if !vlib.Mine(0) {
+		t.Skip("observed on shard 0")
+	}
+	c := k256.NewCurve()
+	env := newEgEnv(t, "k256", c, orderK256)
+	g2 := c.Generator().ScalarOp(env.scalar(t, big.NewInt(2)))
+	sk, err := elgamal.NewSecretKey(g2, env.scalar(t, big.NewInt(3)))
+	if err != nil {
+		vlib.Known(knownGeneratorIgnored, false, "NewSecretKey now refuses a generator other than the group's standard generator: "+err.Error())
+		return
+	}
+	pk := sk.Public()
+	m, err := elgamal.NewPlaintext(c.Generator())
+	if err != nil {
+		t.Fatal(err)
+	}
+	n, err := elgamal.NewNonce(env.scalar(t, big.NewInt(1)))
+	if err != nil {
+		t.Fatal(err)
+	}
+	cpk, err := pk.EncryptWithNonce(m, n)
+	if err != nil {
+		t.Fatalf("pk.EncryptWithNonce failed: %v", err)
+	}
+	csk, err := sk.EncryptWithNonce(m, n)
+	if err != nil {
+		t.Fatalf("sk.EncryptWithNonce failed: %v", err)
+	}
+	d, err := sk.Decrypt(cpk)
+	if err != nil {
+		t.Fatalf("Decrypt failed: %v", err)
+	}
+	present := !d.Equal(m) || !csk.Equal(cpk)
+	vlib.Known(knownGeneratorIgnored, present, fmt.Sprintf(
+		"k256 NewSecretKey(2G, 3), m = G, r = 1: Decrypt(pk.EncryptWithNonce(m,r)) == m: %v; sk ciphertext == pk ciphertext: %v",
+		d.Equal(m), csk.Equal(cpk)))
+}
 
 // Degenerate keys are refused: secret exponent 0 or 1, identity generator / public key.
 func TestElGamalRejects(t *testing.T) {
